@@ -13,8 +13,7 @@ Oracle: ``reference()`` below -- a strict parser written from the haproxy PROXY 
 specification (it shares no code with slimta and never calls inet_pton).  It classifies the
 whole byte stream as  ok / local / bad / open  and, for ok, gives addresses and the header
 length.  'open' = the specification (or the task's reading of it) leaves well-formedness
-open (leading zeros, IPv4-in-IPv6 text, AF_x with UNSPEC transport, embedded NUL in a unix
-path): generated, run, judged only on "no exception escapes" and the consumption bound.
+open (leading zeros, IPv4-in-IPv6 text, AF_x with UNSPEC transport): generated, run, judged only on "no exception escapes" and the consumption bound.
 
 Edge level: the same three mix-ins (static subclass and mixin()) in front of the real SmtpEdge / SmtpSession /
 Server with a recording queue, banner validator and PTR-lookup stand-in.  The header is followed by a complete
@@ -79,16 +78,9 @@ ASSUMPTIONS = ['ScriptSocket.recv_into never returns more than requested and ret
                '"UNKNOWN accepted" and "rejected as invalid" are not distinguishable at the handler and are not '
                'distinguished by the oracle',
                'spec-open inputs (leading zeros in ports / IPv4 octets, dotted-quad inside IPv6 text, AF_x with '
-               'UNSPEC transport or vice versa) are judged only on no-escape and the consumption bound; a unix '
-               'path with an embedded NUL may be reported cut at the first NUL, with only the padding stripped, '
-               'or in full',
-               'concurrency: YieldSocket blocks the reading greenlet on a gevent Event when nothing is ready (what a '
-               'gevent socket does); the feed order is the whole schedule, no timers; a harness that cannot settle '
-               'gives inconclusive',
-               'edge level: slimta.edge.smtp.PtrLookup is replaced by a recording stand-in (no resolver threads); an '
-               'exception raised by the SMTP layer on the garbage that follows a malformed header is not judged here; '
-               'a v2 AF_UNIX source reaches the SMTP session as a bytes path (its client ip becomes address[0], an '
-               'int; an unnamed source, empty path, makes SmtpSession raise IndexError): recorded, not judged',
+               'UNSPEC transport or vice versa) are judged only on no-escape and the consumption bound',
+               'a v2 AF_UNIX address is the 108-byte field with its trailing NUL padding stripped: leading and '
+               'embedded NULs belong to the name',
                'v2 LOCAL: the specification says the family byte is ignored and the block skipped; the library\'s '
                'documented behaviour (drop the connection) is what the statement accepts, so LOCAL with any '
                'family/length whose declared block is present must be dropped']
@@ -183,18 +175,13 @@ V2_FAM = {0: 'UNSPEC', 1: 'INET', 2: 'INET6', 3: 'UNIX'}
 
 
 def _unix(b):
-    """108-byte sun_path field.  Without an embedded NUL: the bytes before the NUL padding.  With one the
-    spec does not say whether the path ends at the first NUL or only the padding is stripped (abstract
-    sockets start with NUL): any of the readings is accepted."""
-    s = b.rstrip(b'\x00')
-    if b'\x00' not in s:
-        return ('unix', s)
-    return ('unix-any', (s, b.split(b'\x00')[0], b))
+    """108-byte sun_path field: the bytes with the trailing NUL padding stripped, nothing else (a leading NUL is
+    an abstract-namespace name, an embedded NUL is part of the name) -- the spec's padding rule and what the
+    library documents by returning the raw path."""
+    return ('unix', b.rstrip(b'\x00'))
 
 
 def same(got, want):
-    if isinstance(want, tuple) and want and want[0] == 'unix-any':
-        return isinstance(got, tuple) and got[0] == 'unix' and got[1] in want[1]
     return got == want
 
 
@@ -367,6 +354,10 @@ BYTEVALS = {'quick': [0x00, 0x2b, 0x5f, 0x09, 0xff, 0x20, 0x0d, 0x0a, 0x30, 0x2d
 STR_CLASS_VALS = [0xb2, 0xb3, 0xb9, 0xbc, 0xa0, 0x85, 0x1c, 0x1d, 0x1e, 0x1f, 0x0b, 0x0c]
 
 
+UNIX_NAMES = [b'\x00abstract', b'/a\x00b', b'A' * 108, b'', b'\xff\xfe\x80sock\xc3', b'\x00\x00x', b'x\x00\x00y\x00',
+              b'\x00' * 107 + b'z', b'/var/run/plain.sock']
+
+
 def r_ip4(rnd):
     return rnd.choice(IP4) if rnd.random() < 0.4 else str(ipaddress.IPv4Address(rnd.getrandbits(32)))
 
@@ -497,7 +488,11 @@ def gen_all(tier, seed):
         yield case('open', v1line('TCP6', tok, '::1', 1, 2))
     for fb in (0x10, 0x20, 0x30, 0x01, 0x02):
         yield case('open', v2hdr(1, fb, blkux(b'/a', b'/b')))
-    yield case('open', v2hdr(1, 0x31, blkux(b'/a\x00b', b'\x00abstract')))
+    # AF_UNIX names: abstract (leading NUL), embedded NUL, full 108 bytes, only NULs, 8-bit bytes, trailing NUL
+    for sname in UNIX_NAMES:
+        for dname in UNIX_NAMES:
+            yield case('wf', v2hdr(1, rnd.choice([0x31, 0x32]), blkux(sname, dname)), rnd.choice(PAYLOADS),
+                       name='v2-unix-names')
     yield case('wf', v2hdr(1, 0x31, blkux(b'', b'/d')), b'EHLO x\r\n', name='v2-unix-unnamed-source')
     yield case('wf', v2hdr(1, 0x32, blkux(b'', b'')), b'EHLO x\r\n', name='v2-unix-unnamed-both')
 
